@@ -1076,7 +1076,22 @@ func (g *gen) idiom(d int, top bool) []stmtText {
 	e := func() string { return g.w(g.expr(kAny, d-1), pAssign) }
 	c := func() string { return g.condTest(d - 1).s }
 	cp := func() string { return g.w(g.condTest(d-1), pBitOr) }
-	switch r.Intn(27) {
+	switch r.Intn(29) {
+	case 27, 28: // c?f(x):f(y) where evaluating c rebinds f: the callee must be read AFTER the condition (K117)
+		f := g.fresh("f")
+		s := g.fresh("f")
+		g.declare(&variable{name: f, k: kFn, decl: "var", arity: 1})
+		g.declare(&variable{name: s, k: kFn, decl: "fn", arity: 0})
+		cond := s + "()"
+		switch r.Intn(4) {
+		case 0:
+			cond = "(" + f + "=function(v){return " + h() + "(\"n\",v)}," + r.Pick("1", "0", "h9()") + ")"
+		case 1:
+			cond = s + "()" + r.Pick("&&", "||") + c()
+		}
+		g.kindHit("idiom:callee-rebound-by-condition")
+		return one("var "+f+"=function(v){return "+h()+"(\"o\",v)};function "+s+"(){"+f+"=function(v){return "+h()+"(\"n\",v)};return "+r.Pick("1", "0", "h9()")+"}"+
+			h()+"("+cond+"?"+f+"("+e()+"):"+f+"("+e()+"))", true)
 	case 0: // return merging inside a function
 		f := g.fresh("f")
 		p := g.fresh("p")
